@@ -111,6 +111,8 @@ type runner struct {
 	limit int       // max number of model cases
 	bytes int       // bytes of terms emitted
 	seen  map[string]bool
+
+	failedHist int // histories with an oracle failure (the first ones also become model cases)
 }
 
 func (x *runner) file(name string) *hx.CaseFile {
@@ -318,6 +320,7 @@ type cdesc struct {
 	X    string `json:"x,omitempty"`
 	S    string `json:"s,omitempty"`
 	Op   string `json:"op,omitempty"`
+	Hist []hopJ `json:"hist,omitempty"` // kind "history": the program
 }
 
 func hexs(s string) string { return hx.Hex([]byte(s)) }
@@ -1024,13 +1027,16 @@ func main() {
 	res := hx.NewResult("C11")
 	x := &runner{res: res, r: hx.NewRand(o.Seed), files: map[string]*hx.CaseFile{}, seen: map[string]bool{},
 		hyp: hypRec{map[string]bool{}, map[string]bool{}, map[string]bool{}, map[string]bool{}, map[string]bool{}}}
-	x.limit = 8000000
+	x.limit = 10000000
 	n, depth := 600, 3
+	hdepth, hevery, nhist := 3, 40, 300
 	if o.Thorough() {
-		x.limit, n, depth = 40000000, 9000, 4
+		x.limit, n, depth = 46000000, 9000, 4
+		hdepth, hevery, nhist = 4, 400, 6000
 	}
 	if o.Search {
 		x.limit, n, depth = 0, 30000, 4
+		hdepth, hevery, nhist = 4, 1000000, 40000
 	}
 
 	if o.Replay != "" {
@@ -1053,6 +1059,8 @@ func main() {
 			x.str(h(c.S))
 		case "zero":
 			x.zeroChecks()
+		case "history":
+			x.history(histFromJ(c.Hist), "replay", true)
 		default:
 			x.zeroChecks()
 			x.triple(h(c.L), h(c.D), h(c.R), h(c.X))
@@ -1065,6 +1073,13 @@ func main() {
 		for _, t := range corpusTriples {
 			x.triple(t[0], t[1], t[2], t[3])
 		}
+		// histories of calls on values that share backing arrays: witnesses, then
+		// every small program, (seeded random ones after the triples)
+		for _, hcase := range corpusHistories {
+			x.history(append([]hop(nil), hcase...), "corpus", true)
+		}
+		nh := x.exhaustiveHistories(hdepth, hevery)
+		res.Extra["exhaustive_histories"] = fmt.Sprintf("%d programs: every sequence of up to %d calls (Bare, Domain, Copy, WithLocal/WithDomain/WithResource with shorter/equal/longer arguments, UnmarshalXMLAttr) on every register after each of 3 start values; all earlier results re-read after every call", nh, hdepth)
 		// exhaustive small scope: every string over the separator alphabet
 		alpha := []string{"a", "@", "/", "."}
 		for l := 0; l <= depth+1; l++ {
@@ -1120,12 +1135,16 @@ func main() {
 			if i%2 == 0 {
 				x.str(x.genString())
 			}
+			for k := i * nhist / n; k < (i+1)*nhist/n; k++ { // nhist random histories, interleaved
+				x.history(x.randomHistory(), "random", true)
+			}
 		}
 	}
 	res.Rule = "inputs: corpus (defect witnesses, RFC 7622 examples), all strings over {a @ / .} up to a length bound, every entry of the Unicode part pools " +
 		"(case/width variants, final sigma, combining sequences, Hangul, ZWJ, bidi, A-labels, IP literals, trailing and ideographic dots, invalid UTF-8), 1021..1025-byte parts, " +
 		"seeded random triples and strings; per triple: New, Parse/SplitString/ParseUnsafe of the assembled string, WithDomain/WithLocal/WithResource chains in both orders, " +
-		"replacement of each part, Equal against a pool, attribute and element codecs; distinct = hash of the input; non-trivial = some part is not plain [a-z0-9.]*"
+		"replacement of each part, Equal against a pool, attribute and element codecs; histories (programs of calls over registers of values sharing backing arrays: " +
+		"witnesses, every program up to a depth bound over three start values, seeded random ones) with every earlier result re-read after every call; distinct = hash of the input; non-trivial = some part is not plain [a-z0-9.]*"
 	per := 1500
 	sort.Strings(x.order)
 	total := 0
